@@ -24,18 +24,22 @@ var reVarLine = regexp.MustCompile(`^@(\S+) = (.*)$`)
 var reQuoted = regexp.MustCompile(`"([^"]*)"`)
 
 // loadTunables asks the reference parser for the expanded variables of the tunables of a build.
-func loadTunables(e *Env, buildOut string) (*aareEnv, error) {
+// tunablesOverlay: upstream policy directory with the tunables of a build on top (kept until cleanup).
+func tunablesOverlay(e *Env, buildOut string) (string, error) {
 	ov, err := os.MkdirTemp(e.Scratch, "tun-")
 	if err != nil {
-		return nil, err
+		return "", err
 	}
-	defer os.RemoveAll(ov)
 	if out, err := execCmd("cp", "-a", "/etc/apparmor.d/.", ov); err != nil {
-		return nil, fmt.Errorf("%v %s", err, out)
+		return "", fmt.Errorf("%v %s", err, out)
 	}
 	if out, err := execCmd("cp", "-a", filepath.Join(buildOut, "apparmor.d", "tunables"), ov); err != nil {
-		return nil, fmt.Errorf("%v %s", err, out)
+		return "", fmt.Errorf("%v %s", err, out)
 	}
+	return ov, normaliseTunables(ov)
+}
+
+func normaliseTunables(ov string) error {
 	// ABI 4 tunables are read by the 3.0 parser after the same normalisation as C01
 	_ = filepath.Walk(filepath.Join(ov, "tunables"), func(p string, info os.FileInfo, err error) error {
 		if err == nil && info.Mode().IsRegular() {
@@ -45,6 +49,15 @@ func loadTunables(e *Env, buildOut string) (*aareEnv, error) {
 		}
 		return nil
 	})
+	return nil
+}
+
+func loadTunables(e *Env, buildOut string) (*aareEnv, error) {
+	ov, err := tunablesOverlay(e, buildOut)
+	if err != nil {
+		return nil, err
+	}
+	defer os.RemoveAll(ov)
 	stub := filepath.Join(ov, "vstub")
 	_ = os.WriteFile(stub, []byte("abi <abi/3.0>,\ninclude <tunables/global>\nprofile vstub /vstub {\n}\n"), 0o644)
 	cmd := exec.Command("/usr/sbin/apparmor_parser", "-Q", "-K", "-D", "expanded-variables", "-b", ov, "-I", ov, stub)
